@@ -964,10 +964,10 @@ def run(ctx):
     rng = gen.rng_for(ctx.seed, PID)
     # source drift (a new / removed in-place statement in the anchored files) is not a verdict: it deepens the search
     boost = 3 if inventory_drift(ctx) else 1
-    leg_a_cache(ctx, rng, 150 if ctx.quick else 6000)
+    leg_a_cache(ctx, rng, 400 if ctx.quick else 6000)
     leg_a_alias(ctx, rng, (4 if ctx.quick else 100) * boost)
     leg_c_unchanged(ctx, rng, (60 if ctx.quick else 3000) * boost)
-    leg_c_cached(ctx, rng, (120 if ctx.quick else 6000) * boost)
+    leg_c_cached(ctx, rng, (300 if ctx.quick else 6000) * boost)
     ctx.cov["rule"] = (
         "A:cache = one random call sequence (1..40 calls drawn from a pool of <=6 permutations, <=6 reshape targets, tocsr, tocsc, "
         "raw argument forms varied) on one cache-enabled COO array (root or a cache-enabled result), compared with the model after every call; "
